@@ -10,4 +10,6 @@ cargo build --release --offline --workspace 2>&1 | tail -3
 if [ -x target/release/refsmt ]; then
   for s in z3 cvc5 bitwuzla yices-smt2; do ln -sf "$HERE/harness/target/release/refsmt" "$HERE/bin/solvers/$s"; done
 fi
+# the repository's own mc tool (driven end to end by C02 / C03), dev profile, guard off
+( cd /repo && RUSTFLAGS="" CARGO_TARGET_DIR="$HERE/harness/target-mc" cargo build --offline -p mc 2>&1 | tail -1 )
 echo "setup done"
